@@ -190,6 +190,7 @@ type Frame struct {
 	params  []Value
 	chain   string // inlining chain "f/g/h" used in obligation names
 	wm, wmpost *Term
+	mapLoops []*mapLoopInfo
 }
 
 type deferred struct {
@@ -242,6 +243,7 @@ func (s *State) fork() *State {
 			g.loops[k] = v
 		}
 		g.defers = append([]deferred(nil), f.defers...)
+		g.mapLoops = append([]*mapLoopInfo(nil), f.mapLoops...)
 		n.frames[i] = &g
 	}
 	// copies / allocTy are append-only keyed by unique alloc ordinals; sharing is safe
@@ -527,6 +529,7 @@ type Engine struct {
 	vacuity   []vacuityProbe
 	onReturn  func(fn *ssa.Function, r pathResult)
 	onExit    func(fn *ssa.Function, s *State)
+	detCur    *mapLoopInfo
 	curFramed bool
 	curExcept []frameExc
 }
@@ -537,6 +540,10 @@ type funcVal struct {
 }
 
 func (e *Engine) typeKey(t types.Type) string {
+	return strings.ReplaceAll(e.typeKeyRaw(t), "interface{}", "any")
+}
+
+func (e *Engine) typeKeyRaw(t types.Type) string {
 	return types.TypeString(t, func(p *types.Package) string {
 		path := p.Path()
 		if i := strings.LastIndex(path, "/"); i >= 0 {
